@@ -466,6 +466,50 @@ func popRunCase(c popCase) M {
 	return M{"kind": "pop", "in": c, "obs": obs, "raw": M{"kind": "pop", "pop": c}}
 }
 
+// ---------------------------------------------------------------- loops: first questions about one group arriving together
+
+// loopStressCase: `callers` goroutines call RefreshLoop for the same group at the same instant (what simultaneous first
+// questions about an uncached group do), `rounds` times with a fresh cache. Exactly one of them starts the loop.
+func loopStressCase(rounds, callers int) M {
+	maxStarted, minStarted, fills := 0, callers, 0
+	var mu sync.Mutex
+	for r := 0; r < rounds; r++ {
+		fc := groups.NewFillCache(func(string) (groups.MemberSet, error) {
+			mu.Lock()
+			fills++
+			mu.Unlock()
+			return groups.MemberSet{"u": {}}, nil
+		}, time.Hour)
+		fc.StatsdClient = getStatsd()
+		started := 0
+		var wg sync.WaitGroup
+		start := make(chan struct{})
+		for i := 0; i < callers; i++ {
+			wg.Add(1)
+			go func() {
+				defer wg.Done()
+				<-start
+				if fc.RefreshLoop("g") {
+					mu.Lock()
+					started++
+					mu.Unlock()
+				}
+			}()
+		}
+		close(start)
+		wg.Wait()
+		fc.Stop()
+		if started > maxStarted {
+			maxStarted = started
+		}
+		if started < minStarted {
+			minStarted = started
+		}
+	}
+	return M{"kind": "loopstress", "rounds": rounds, "callers": callers, "maxStarted": maxStarted, "minStarted": minStarted, "fills": fills,
+		"raw": M{"kind": "loopstress", "rounds": rounds, "callers": callers}}
+}
+
 // ---------------------------------------------------------------- engine
 
 func init() {
@@ -489,11 +533,13 @@ func init() {
 		if replay != nil {
 			var w struct {
 				Raw struct {
-					Kind string  `json:"kind"`
-					Gc   []gcOp  `json:"gc"`
-					Fc   []fcOp  `json:"fc"`
-					Mem  memCase `json:"mem"`
-					Pop  popCase `json:"pop"`
+					Kind    string  `json:"kind"`
+					Gc      []gcOp  `json:"gc"`
+					Fc      []fcOp  `json:"fc"`
+					Mem     memCase `json:"mem"`
+					Pop     popCase `json:"pop"`
+					Rounds  int     `json:"rounds"`
+					Callers int     `json:"callers"`
 				} `json:"raw"`
 			}
 			if err := json.Unmarshal(replay, &w); err != nil {
@@ -508,6 +554,8 @@ func init() {
 				emit(memRunCase(w.Raw.Mem))
 			case "pop":
 				emit(popRunCase(w.Raw.Pop))
+			case "loopstress":
+				emit(loopStressCase(w.Raw.Rounds, w.Raw.Callers))
 			}
 			return
 		}
@@ -549,6 +597,7 @@ func init() {
 			emit(memRunCase(memCase{Provider: prov, Cache: map[string][]string{"g1": {"u"}}, Asked: []string{"g1", "g2"}, User: "u", Dir: []string{"g1", "g2"}, Running: []string{"g2"}}))
 			emit(memRunCase(memCase{Provider: prov, Cache: map[string][]string{}, Asked: []string{"g2"}, User: "u", Dir: []string{"g2"}, Running: []string{"g2"}}))
 		}
+		emit(loopStressCase(12, 12))
 		for _, prov := range []string{"google", "cognito"} {
 			emit(popRunCase(popCase{Provider: prov, Answers: []string{"ok:u,v", "err", "ok:w", "notfound", "notfound", "ok:u", "err", "notfound", "ok:"}}))
 			// a group that loses its last member still exists: the emptied list replaces the old one
